@@ -1369,7 +1369,7 @@ static std::vector<Plan> make_plans(bool thorough, std::vector<Geom>& geoms)
     {
       if (!thorough && !DERIVED[d].quick) continue;
       const int g = NBASE + d;
-      const bool big = geoms[g].nbins() > 1500; // the 5-segment TOF geometry
+      const bool big = geoms[g].nbins() > 350;  // cut out of the 5-segment TOF geometry (400..640 bins)
       add("mem", g, 0, 0, 0, 0, 0, 0, 1, thorough ? (big ? 2 : 3) : 2, thorough ? 1 : 0, 0);
       const std::vector<int> p3 = perms3(g);
       for (const char* st : { "sstr", "fstr", "intf" })
